@@ -118,6 +118,12 @@ func recovery(idx int64, r *rand.Rand) {
 		spec.Funcs = []string{"threshold=0", "threshold=-1"}[r.IntN(2)]
 		rt.Count("vegas_recovery_runs_with_a_caller_supplied_threshold", 1)
 	}
+	if kind == "vegas" && spec.Funcs == "" && r.IntN(6) == 0 {
+		// a caller-supplied baseline measurement that keeps the latest value it was given: healthy samples at that value
+		// grow the limit like any other
+		spec.NoLoad = "single"
+		rt.Count("vegas_recovery_runs_with_a_caller_supplied_baseline_measurement", 1)
+	}
 	incBy := spec.IncBy
 	if kind == "aimd" && r.IntN(6) == 0 {
 		spec.IncBy = []int{0, -1}[r.IntN(2)] // "give me the default" increment: 1
